@@ -81,7 +81,9 @@ func Round(pkg *packages.Package, exempt map[string]bool, counter *int) (*Result
 			n.cur = fd
 			n.curFile = f
 			n.curObj, _ = n.info.Defs[fd.Name].(*types.Func)
-			if n.rewriteBlock(fd.Body.List, func(l []ast.Stmt) { fd.Body.List = l }) {
+			if n.inlineExprHelpers(fd) {
+				changed = true
+			} else if n.rewriteBlock(fd.Body.List, func(l []ast.Stmt) { fd.Body.List = l }) {
 				changed = true
 			}
 			if n.dropDeadLiterals(fd) {
@@ -1113,13 +1115,25 @@ func (n *normalizer) expand(c *callee, st ast.Stmt, kind string) ([]ast.Stmt, bo
 
 // clone deep-copies an AST, renames the identifiers that denote objects in ren and clears all positions.
 func clone(node ast.Node, ren map[types.Object]string, info *types.Info) ast.Node {
-	v := cloneValue(reflect.ValueOf(node), ren, info)
-	return v.Interface().(ast.Node)
+	c := &cloner{ren: ren, info: info}
+	return c.value(reflect.ValueOf(node)).Interface().(ast.Node)
+}
+
+// cloneSubst is clone with identifiers replaced by (copies of) expressions.
+func cloneSubst(node ast.Node, subst map[types.Object]ast.Expr, info *types.Info) ast.Node {
+	c := &cloner{subst: subst, info: info}
+	return c.value(reflect.ValueOf(node)).Interface().(ast.Node)
+}
+
+type cloner struct {
+	ren   map[types.Object]string
+	subst map[types.Object]ast.Expr
+	info  *types.Info
 }
 
 var posType = reflect.TypeOf(token.NoPos)
 
-func cloneValue(v reflect.Value, ren map[types.Object]string, info *types.Info) reflect.Value {
+func (c *cloner) value(v reflect.Value) reflect.Value {
 	switch v.Kind() {
 	case reflect.Ptr:
 		if v.IsNil() {
@@ -1127,14 +1141,14 @@ func cloneValue(v reflect.Value, ren map[types.Object]string, info *types.Info) 
 		}
 		if id, ok := v.Interface().(*ast.Ident); ok {
 			name := id.Name
-			if ren != nil {
-				if o := info.Uses[id]; o != nil {
-					if nn, ok := ren[o]; ok {
+			if c.ren != nil {
+				if o := c.info.Uses[id]; o != nil {
+					if nn, ok := c.ren[o]; ok {
 						name = nn
 					}
 				}
-				if o := info.Defs[id]; o != nil {
-					if nn, ok := ren[o]; ok {
+				if o := c.info.Defs[id]; o != nil {
+					if nn, ok := c.ren[o]; ok {
 						name = nn
 					}
 				}
@@ -1148,7 +1162,7 @@ func cloneValue(v reflect.Value, ren map[types.Object]string, info *types.Info) 
 			return reflect.Zero(v.Type())
 		}
 		n := reflect.New(v.Type().Elem())
-		n.Elem().Set(cloneValue(v.Elem(), ren, info))
+		n.Elem().Set(c.value(v.Elem()))
 		return n
 	case reflect.Struct:
 		n := reflect.New(v.Type()).Elem()
@@ -1158,7 +1172,7 @@ func cloneValue(v reflect.Value, ren map[types.Object]string, info *types.Info) 
 				continue // positions are cleared
 			}
 			if n.Field(i).CanSet() {
-				n.Field(i).Set(cloneValue(f, ren, info))
+				n.Field(i).Set(c.value(f))
 			}
 		}
 		return n
@@ -1168,19 +1182,224 @@ func cloneValue(v reflect.Value, ren map[types.Object]string, info *types.Info) 
 		}
 		n := reflect.MakeSlice(v.Type(), v.Len(), v.Len())
 		for i := 0; i < v.Len(); i++ {
-			n.Index(i).Set(cloneValue(v.Index(i), ren, info))
+			n.Index(i).Set(c.value(v.Index(i)))
 		}
 		return n
 	case reflect.Interface:
 		if v.IsNil() {
 			return v
 		}
+		if c.subst != nil {
+			if id, ok := v.Elem().Interface().(*ast.Ident); ok {
+				if o := c.info.Uses[id]; o != nil {
+					if e, ok := c.subst[o]; ok {
+						cp := (&cloner{info: c.info}).value(reflect.ValueOf(e)).Interface().(ast.Expr)
+						if !simpleExpr(cp) {
+							cp = &ast.ParenExpr{X: cp}
+						}
+						n := reflect.New(v.Type()).Elem()
+						n.Set(reflect.ValueOf(cp))
+						return n
+					}
+				}
+			}
+		}
 		n := reflect.New(v.Type()).Elem()
-		n.Set(cloneValue(v.Elem(), ren, info))
+		n.Set(c.value(v.Elem()))
 		return n
 	default:
 		return v
 	}
+}
+
+func simpleExpr(e ast.Expr) bool {
+	switch x := e.(type) {
+	case *ast.Ident, *ast.BasicLit:
+		return true
+	case *ast.SelectorExpr:
+		return simpleExpr(x.X)
+	case *ast.ParenExpr, *ast.CallExpr, *ast.IndexExpr:
+		return true
+	}
+	return false
+}
+
+// pureSimple: evaluating the expression has no effect and its value cannot change within one expression.
+func pureSimple(e ast.Expr) bool {
+	switch x := e.(type) {
+	case *ast.Ident, *ast.BasicLit:
+		return true
+	case *ast.SelectorExpr:
+		return pureSimple(x.X)
+	case *ast.ParenExpr:
+		return pureSimple(x.X)
+	case *ast.StarExpr:
+		return pureSimple(x.X)
+	case *ast.UnaryExpr:
+		return x.Op != token.ARROW && pureSimple(x.X)
+	}
+	return false
+}
+
+// inlineExprHelpers replaces, anywhere in the body of fd, calls of private helpers whose body is a single
+// "return <expression>" by that expression (arguments substituted for the parameters). An argument that is not a plain
+// variable/field/literal is only substituted when its parameter is used exactly once.
+func (n *normalizer) inlineExprHelpers(fd *ast.FuncDecl) bool {
+	changed := false
+	astutil.Apply(fd.Body, nil, func(cur *astutil.Cursor) bool {
+		call, ok := cur.Node().(*ast.CallExpr)
+		if !ok || call.Ellipsis.IsValid() {
+			return true
+		}
+		if _, isExpr := cur.Parent().(*ast.ExprStmt); isExpr {
+			return true // a statement: nothing to substitute into
+		}
+		if _, isGo := cur.Parent().(*ast.GoStmt); isGo {
+			return true
+		}
+		if _, isDefer := cur.Parent().(*ast.DeferStmt); isDefer {
+			return true
+		}
+		var obj *types.Func
+		var recvArg ast.Expr
+		switch f := ast.Unparen(call.Fun).(type) {
+		case *ast.Ident:
+			obj, _ = n.info.Uses[f].(*types.Func)
+		case *ast.SelectorExpr:
+			sel := n.info.Selections[f]
+			if sel == nil || sel.Kind() != types.MethodVal || len(sel.Index()) != 1 {
+				return true
+			}
+			obj, _ = sel.Obj().(*types.Func)
+			if obj == nil {
+				return true
+			}
+			sig := obj.Type().(*types.Signature)
+			_, wantPtr := sig.Recv().Type().(*types.Pointer)
+			_, havePtr := n.info.TypeOf(f.X).Underlying().(*types.Pointer)
+			switch {
+			case wantPtr == havePtr:
+				recvArg = f.X
+			case wantPtr && !havePtr:
+				recvArg = &ast.UnaryExpr{Op: token.AND, X: f.X}
+			default:
+				recvArg = &ast.StarExpr{X: f.X}
+			}
+		}
+		if obj == nil || obj.Pkg() != n.pkg.Types || obj.Exported() || n.exempt[ShortName(obj)] || obj == n.curObj {
+			return true
+		}
+		fd2 := n.decls[obj.Origin()]
+		if fd2 == nil || fd2.Body == nil || len(fd2.Body.List) != 1 {
+			return true
+		}
+		ret, isRet := fd2.Body.List[0].(*ast.ReturnStmt)
+		if !isRet || len(ret.Results) != 1 {
+			return true
+		}
+		sig := obj.Type().(*types.Signature)
+		if sig.Variadic() || sig.TypeParams().Len() > 0 || sig.Results().Len() != 1 {
+			return true
+		}
+		if fd2.Recv != nil && !n.sameTypeParams(fd2) {
+			return true
+		}
+		hasLit := false
+		ast.Inspect(ret.Results[0], func(x ast.Node) bool {
+			if _, ok := x.(*ast.FuncLit); ok {
+				hasLit = true
+			}
+			return true
+		})
+		if hasLit || n.callsItself(fd2, obj) {
+			return true
+		}
+		// parameters -> arguments
+		subst := map[types.Object]ast.Expr{}
+		uses := map[types.Object]int{}
+		ast.Inspect(ret.Results[0], func(x ast.Node) bool {
+			if id, ok := x.(*ast.Ident); ok {
+				if o := n.info.Uses[id]; o != nil {
+					uses[o]++
+				}
+			}
+			return true
+		})
+		okArgs := true
+		bind := func(id *ast.Ident, arg ast.Expr) {
+			o := n.info.Defs[id]
+			if o == nil || id.Name == "_" {
+				if !pureSimple(arg) {
+					okArgs = false // the argument's evaluation would be dropped
+				}
+				return
+			}
+			if !pureSimple(arg) && uses[o] != 1 {
+				okArgs = false
+			}
+			subst[o] = arg
+		}
+		if fd2.Recv != nil && len(fd2.Recv.List) == 1 {
+			if recvArg == nil {
+				return true
+			}
+			if len(fd2.Recv.List[0].Names) == 1 {
+				bind(fd2.Recv.List[0].Names[0], recvArg)
+			} else if !pureSimple(recvArg) {
+				return true
+			}
+		}
+		ai := 0
+		if fd2.Type.Params != nil {
+			for _, f := range fd2.Type.Params.List {
+				names := f.Names
+				if len(names) == 0 {
+					names = []*ast.Ident{ast.NewIdent("_")}
+				}
+				for _, id := range names {
+					if ai >= len(call.Args) {
+						return true
+					}
+					bind(id, call.Args[ai])
+					ai++
+				}
+			}
+		}
+		if ai != len(call.Args) || !okArgs {
+			return true
+		}
+		// hygiene: free identifiers of the expression must not be captured by locals of the caller
+		c := &callee{body: &ast.BlockStmt{List: []ast.Stmt{ret}}, typ: fd2.Type, file: n.declFile[obj.Origin()]}
+		if fd2.Recv != nil && len(fd2.Recv.List) == 1 {
+			c.recv = fd2.Recv.List[0]
+		}
+		if !n.inlinableBody(c) {
+			return true
+		}
+		repl := cloneSubst(ret.Results[0], subst, n.info).(ast.Expr)
+		cur.Replace(&ast.ParenExpr{X: repl})
+		if c.file != nil && c.file != n.curFile {
+			if n.needImports == nil {
+				n.needImports = map[*ast.File][][2]string{}
+			}
+			ast.Inspect(ret.Results[0], func(x ast.Node) bool {
+				if id, ok := x.(*ast.Ident); ok {
+					if pn, isPkg := n.info.Uses[id].(*types.PkgName); isPkg {
+						name := ""
+						if pn.Name() != pn.Imported().Name() {
+							name = pn.Name()
+						}
+						n.needImports[n.curFile] = append(n.needImports[n.curFile], [2]string{name, pn.Imported().Path()})
+					}
+				}
+				return true
+			})
+		}
+		n.log = append(n.log, n.cur.Name.Name+" <- "+obj.Name()+" (expression)")
+		changed = true
+		return false
+	})
+	return changed
 }
 
 // Prune removes the declarations of private functions and methods that nothing in the package refers to any more
